@@ -292,6 +292,8 @@ def family_grids(shard):
             F[idx] = [LOW, 0.3, HIGH][(idx[0] + 2 * idx[1] + 3 * idx[2]) % 3]
         yield F
         # energies whose exponential exceeds the threshold (exp(18) > 1e7): the capped weight of dijkstra-exp matters
+        if int(np.prod(shape)) > 27:
+            return
         Fh = np.zeros(shape)
         for idx in np.ndindex(shape):
             Fh[idx] = [LOW, 12.0, 18.0, 30.0][(idx[0] + 2 * idx[1] + 3 * idx[2]) % 4]
@@ -360,7 +362,7 @@ def run_shard(shard) -> Result:
                 subsets = subsets[:6]
             # the order in which peaks are supplied must not matter: every ORDER of every 3 peaks
             if len(nodes) >= 3 and (n <= 4 or shard['tier'] == 'thorough'):
-                subsets += list(itertools.permutations(nodes[:4], 3))
+                subsets += list(itertools.permutations(nodes[:3], 3)) if shard['tier'] == 'quick' else list(itertools.permutations(nodes[:4], 3))
             for peaks in subsets:
                 eval_percolation(F, shard['dirs'], list(peaks), res)
         res.sample({'percolation_shape': shape, 'directions': shard['dirs']})
